@@ -55,9 +55,9 @@ GJ(M, n, c) ==
              ELSE LET p   == MinOf(cand)
                       Ms  == [M EXCEPT ![c] = M[p], ![p] = M[c]]
                       piv == Ms[c][c]
-                      rc  == [j \in 0..n |-> RDiv(Ms[c][j], piv)]
+                      rc  == [j \in 0..n |-> QDiv(Ms[c][j], piv)]
                       Me  == [i \in Idx(n) |-> IF i = c THEN rc
-                                               ELSE [j \in 0..n |-> RSub(Ms[i][j], RMul(Ms[i][c], rc[j]))]]
+                                               ELSE [j \in 0..n |-> QSub(Ms[i][j], QMul(Ms[i][c], rc[j]))]]
                   IN  GJ(Me, n, c + 1)
 \* solution of D x = f (D dense rational n x n); [ok, x]
 RefSolve(D, f, n) ==
